@@ -136,7 +136,17 @@ func (s *Service) unblindProposal(ctx context.Context,
 	// semaphore to track if a signed block has been returned by any provider.
 	sem := semaphore.NewWeighted(1)
 
-	respCh := make(chan *api.VersionedSignedProposal, 1)
+	// The request is built once, up front: the proposal is altered when a block is returned,
+	// at which point slower providers may still be (re)trying.
+	blindedProposal := &api.VersionedSignedBlindedProposal{
+		Version:   proposal.Version,
+		Bellatrix: proposal.BellatrixBlinded,
+		Capella:   proposal.CapellaBlinded,
+		Deneb:     proposal.DenebBlinded,
+	}
+
+	// The channel has room for every provider, so that providers responding at the same time do not block.
+	respCh := make(chan *api.VersionedSignedProposal, len(providers))
 	for _, provider := range providers {
 		go func(ctx context.Context, provider builderclient.UnblindedProposalProvider, ch chan *api.VersionedSignedProposal) {
 			log := s.log.With().Str("provider", provider.Address()).Logger()
@@ -150,12 +160,7 @@ func (s *Service) unblindProposal(ctx context.Context,
 			for retries := 3; retries > 0; retries-- {
 				// Unblind the blinded block.
 				signedProposalResponse, err = provider.UnblindProposal(ctx, &builderapi.UnblindProposalOpts{
-					Proposal: &api.VersionedSignedBlindedProposal{
-						Version:   proposal.Version,
-						Bellatrix: proposal.BellatrixBlinded,
-						Capella:   proposal.CapellaBlinded,
-						Deneb:     proposal.DenebBlinded,
-					},
+					Proposal: blindedProposal,
 				})
 
 				if !sem.TryAcquire(1) {
